@@ -336,7 +336,8 @@ class Program:
     # not disturb any rule, every function's parameters and locals are mapped BY POSITION onto the names recorded for that
     # function in props/pinned_names.json (frozen table, generated once from the pinned tree by tools/pinned_names.py); lambdas,
     # whose exported names derive from the variable they initialise, are re-keyed accordingly.  When a function's number of
-    # parameters or locals differs from the table (its structure changed) its names are left as they are in the source.
+    # parameters or locals differs from the table (its structure changed), or its locals carry exactly the pinned names in another
+    # order (declarations moved), its names are left as they are in the source.
     _PIN_TABLE = None
 
     @staticmethod
@@ -385,7 +386,8 @@ class Program:
                         if p_.get('n'):
                             r[p_['d']] = want
                 loc = Program.local_names(f)
-                if len(loc) == len(ent['locals']):
+                # same names in another order = declarations were moved, not renamed: the source names already are the pinned ones
+                if len(loc) == len(ent['locals']) and sorted(n_ for _d, n_ in loc) != sorted(ent['locals']):
                     for (d_, _n), want in zip(loc, ent['locals']):
                         r[d_] = want
             # lambdas initialising a (possibly renamed) local are exported as <function>::$<local>
